@@ -1,11 +1,106 @@
-import PyresampleModel.Model.Core
+import PyresampleModel.Model.Grid
 
 /-
-  C01 — model (stub: not built yet).
+  C01 — every coordinate accessor of an `AreaDefinition`, as the code computes it.
+  The geodetic inverse projection is a parameter `inv : Rat × Rat → β`.
 -/
 namespace PyresampleModel.C01
 
+open Grid
+
+/-- `get_proj_vectors()[0]` = `arange(0, width) * pixel_size_x + pixel_upper_left[0]` -/
+def xvec (g : Grid) : List Rat := (List.range g.w).map (fun (c : Nat) => g.projX (c : Rat))
+/-- `get_proj_vectors()[1]` = `arange(0, height) * -pixel_size_y + pixel_upper_left[1]` -/
+def yvec (g : Grid) : List Rat := (List.range g.h).map (fun (r : Nat) => g.projY (r : Rat))
+
+/-- `get_proj_coords()` (numpy path): `meshgrid(x, y)`; element (r, c) = (x_c, y_r) -/
+def coords2d (g : Grid) : List (List (Rat × Rat)) :=
+  (yvec g).map (fun y => (xvec g).map (fun x => (x, y)))
+
+/-- `get_proj_coords(data_slice=(ys, xs))` (numpy path): vectors sliced first, then meshgrid -/
+def coordsSliced (g : Grid) (ys xs : PySlice) : List (List (Rat × Rat)) :=
+  (ys.apply (yvec g)).map (fun y => (xs.apply (xvec g)).map (fun x => (x, y)))
+
+/-- `_generate_2d_coords` for the block whose array-location is rows `[r0, r1)`, columns `[c0, c1)` -/
+def genBlock (g : Grid) (r0 r1 c0 c1 : Nat) : List (List (Rat × Rat)) :=
+  (List.range' r0 (r1 - r0)).map (fun (r : Nat) =>
+    (List.range' c0 (c1 - c0)).map (fun (c : Nat) => (g.projX (c : Rat), g.projY (r : Rat))))
+
+/-- chunk tuple → (start, stop) per chunk -/
+def axisSlices : List Nat → Nat → List (Nat × Nat)
+  | [], _ => []
+  | c :: cs, off => (off, off + c) :: axisSlices cs (off + c)
+
+/-- horizontal concatenation of blocks that all have `n` rows -/
+def hstack {α} (n : Nat) (blocks : List (List (List α))) : List (List α) :=
+  (List.range n).map (fun i => blocks.flatMap (fun b => b.getD i []))
+
+/-- the dask array of `_proj_coords_dask`: one generated block per (row chunk, column chunk) -/
+def assembleBlocks (g : Grid) (rowChunks colChunks : List Nat) : List (List (Rat × Rat)) :=
+  (axisSlices rowChunks 0).flatMap (fun rs =>
+    hstack (rs.2 - rs.1) ((axisSlices colChunks 0).map (fun cs => genBlock g rs.1 rs.2 cs.1 cs.2)))
+
+/-- the four ways to ask for the lon/lat of pixel (r, c) -/
+def getLonlat {β} (inv : Rat × Rat → β) (g : Grid) (r c : Nat) : β := inv (g.projX (c : Rat), g.projY (r : Rat))
+def colrow2lonlat {β} (inv : Rat × Rat → β) (g : Grid) (c r : Nat) : Option β :=
+  match (xvec g)[c]?, (yvec g)[r]? with
+  | some x, some y => some (inv (x, y))
+  | _, _ => none
+def lonlatFromArrayCoords {β} (inv : Rat × Rat → β) (g : Grid) (c r : Rat) : β := inv (g.projX c, g.projY r)
+
+/-- scalar index lookup: `ValueError` (none) iff either axis is masked -/
+def scalarLookup (g : Grid) (x y : Rat) : Option (Int × Int) :=
+  let mx := maskedInt (g.arrX x) g.w
+  let my := maskedInt (g.arrY y) g.h
+  if mx.1 || my.1 then none else some (mx.2, my.2)
+
+/-! ### driver -/
+open Wire
+
+def showPair (p : Rat × Rat) : String := showRat p.1 ++ "," ++ showRat p.2
+
 def handle : List String → Option String
+  | "vectors" :: rest => do
+    let (g, tl) ← grid? rest
+    if tl ≠ [] then none else
+    some (showList showRat (xvec g) ++ " " ++ showList showRat (yvec g))
+  | "blocks" :: rest => do
+    -- blocks <grid> <k> rowchunks… <k> colchunks…  → rows of the assembled array
+    let (g, tl) ← grid? rest
+    let (rc, tl) ← takeList nat? tl
+    let (cc, tl) ← takeList nat? tl
+    if tl ≠ [] then none else
+    let a := assembleBlocks g rc cc
+    some (" | ".intercalate (a.map (fun row => " ".intercalate (row.map showPair))))
+  | "sliced" :: rest => do
+    -- sliced <grid> ys.start ys.stop xs.start xs.stop
+    let (g, tl) ← grid? rest
+    match tl with
+    | [a, b, c, d] =>
+      let a ← optInt? a; let b ← optInt? b; let c ← optInt? c; let d ← optInt? d
+      let res := coordsSliced g ⟨a, b⟩ ⟨c, d⟩
+      some (" | ".intercalate (res.map (fun row => " ".intercalate (row.map showPair))))
+    | _ => none
+  | "conv" :: rest => do
+    -- conv <grid> <x> <y> → arrX arrY | mask,idx per axis | scalar lookup
+    let (g, tl) ← grid? rest
+    match tl with
+    | [x, y] =>
+      let x ← rat? x; let y ← rat? y
+      if g.w = 0 ∨ g.h = 0 ∨ g.dx = 0 ∨ g.dy = 0 then some "err:degenerate" else
+      let mx := maskedInt (g.arrX x) g.w
+      let my := maskedInt (g.arrY y) g.h
+      some (s!"{showRat (g.arrX x)} {showRat (g.arrY y)} {showBool mx.1} {mx.2} {showBool my.1} {my.2} " ++
+        (match scalarLookup g x y with | none => "raise" | some (c, r) => s!"{c},{r}"))
+    | _ => none
+  | "proj" :: rest => do
+    -- proj <grid> <col> <row> → projX projY (fractional array coordinates allowed)
+    let (g, tl) ← grid? rest
+    match tl with
+    | [c, r] =>
+      let c ← rat? c; let r ← rat? r
+      some (showRat (g.projX c) ++ " " ++ showRat (g.projY r))
+    | _ => none
   | _ => none
 
 end PyresampleModel.C01
